@@ -6,6 +6,7 @@ import (
 	"encoding/json"
 	"flag"
 	"fmt"
+	"io"
 	"math/rand"
 	"os"
 	"runtime"
@@ -14,6 +15,7 @@ import (
 	"time"
 	wdog "verifharness/wd"
 
+	"github.com/goatcms/goatcore/app/terminal/termexec"
 	"verifharness/pipx"
 )
 
@@ -230,4 +232,112 @@ func (l *lockedWriter) String() string {
 	l.mu.Lock()
 	defer l.mu.Unlock()
 	return l.b.String()
+}
+
+func init() { commands["argentry"] = cmdArgEntry }
+
+// onlyReader hides every optional interface of a reader (ReadByte, WriteTo ...)
+type onlyReader struct{ r io.Reader }
+
+func (o onlyReader) Read(p []byte) (int, error) { return o.r.Read(p) }
+
+// argentry: C17's "reading stops exactly at the command's newline so the next call returns the next command",
+// through the terminal's entry point that reads ONE command from a caller's reader
+// (termexec.RunCommandFromReader): scripts of two or three commands (plain, quoted, with a heredoc argument) are
+// handed over as a reader WITHOUT ReadByte that delivers everything it has at once, as a reader that delivers byte by
+// byte, and as a strings.Reader; every command must run, in order, with its own arguments, and then eof is reported.
+func cmdArgEntry(args []string) error {
+	fl := flag.NewFlagSet("argentry", flag.ExitOnError)
+	fl.Parse(args)
+	byKey := map[string]int{}
+	examples := map[string][]map[string]string{}
+	fail := func(key, op, what string) {
+		byKey[key]++
+		if len(examples[key]) < 3 {
+			examples[key] = append(examples[key], map[string]string{"key": key, "op": op, "backend": "termexec", "what": what})
+		}
+	}
+	scripts := [][]string{
+		{"probe --id=a1", "probe --id=b1"},
+		{"probe --id=a2 --x=\"two words\"", "probe --id=b2", "probe --id=c2"},
+		{"probe --id=a3 --body=<<EOT\nline one\nprobe --id=NOT-A-COMMAND\nEOT", "probe --id=b3"},
+		{"probe   --id=a4   tail", "", "probe --id=b4"},
+		{"probe --id=a5 " + strings.Repeat("pad ", 1200), "probe --id=b5"}, // the first command alone is longer than a 4096-byte buffer
+	}
+	executed := 0
+	for si, cmds := range scripts {
+		text := strings.Join(cmds, "\n") + "\n"
+		var want []string
+		for _, c := range cmds {
+			if i := strings.Index(c, "--id="); i >= 0 && strings.HasPrefix(c, "probe") {
+				id := c[i+5:]
+				if j := strings.IndexAny(id, " \n"); j >= 0 {
+					id = id[:j]
+				}
+				want = append(want, id)
+			}
+		}
+		for _, kind := range []string{"plain", "bytewise", "strings"} {
+			executed++
+			buf := &lockedWriter{}
+			wd, err := pipx.NewWorld(buf, "", nil)
+			if err != nil {
+				return err
+			}
+			var rd io.Reader
+			switch kind {
+			case "plain":
+				rd = onlyReader{strings.NewReader(text)}
+			case "bytewise":
+				rd = onlyReader{iotest1{strings.NewReader(text)}}
+			default:
+				rd = strings.NewReader(text)
+			}
+			rctx := termexec.NewRunCtx(termexec.RunCtxParams{Application: wd.App, Ctx: wd.App.IOContext(), Commands: wd.App.Terminal()})
+			desc := fmt.Sprintf("script %d (%d commands) through a %s reader", si, len(want), kind)
+			for call := 0; call < len(cmds)+3; call++ {
+				var eof bool
+				var rerr error
+				func() {
+					defer func() {
+						if r := recover(); r != nil {
+							rerr = fmt.Errorf("panic: %v", r)
+						}
+					}()
+					eof, rerr = termexec.RunCommandFromReader(rctx, rd)
+				}()
+				if eof {
+					break
+				}
+				_ = rerr // an empty line is "Expected a command": the caller's business
+			}
+			var got []string
+			for _, l := range strings.Split(buf.String(), "\n") {
+				var ev struct {
+					Ev string `json:"ev"`
+					ID string `json:"id"`
+				}
+				if json.Unmarshal([]byte(l), &ev) == nil && ev.Ev == "begin" {
+					got = append(got, ev.ID)
+				}
+			}
+			if strings.Join(got, ",") != strings.Join(want, ",") {
+				fail("entry-point:next-command", desc, fmt.Sprintf("%s: commands run %v, the script holds %v", desc, got, want))
+			}
+		}
+	}
+	out := map[string]interface{}{"executed": executed, "failures_by_key": byKey, "examples": examples, "samples": []string{}}
+	b, _ := json.Marshal(out)
+	fmt.Println(string(b))
+	return nil
+}
+
+// iotest1 delivers one byte per Read
+type iotest1 struct{ r io.Reader }
+
+func (o iotest1) Read(p []byte) (int, error) {
+	if len(p) == 0 {
+		return 0, nil
+	}
+	return o.r.Read(p[:1])
 }
